@@ -82,4 +82,22 @@ example : (RC.new 4 1000000).run
       [.inc 10000000, .inc 2000000, .inc (-5), .sum 10000000, .bk 11000000, .reset 11000000, .inc 11000001, .sum 0, .total]
     = [.ok, .ok, .ok, .int 1, .ints [0, 1, 0, 0], .ok, .ok, .int 1, .int 4] := by decide
 
+/-- the Inc calls since the last Reset are among the Inc calls -/
+theorem live_length_le_incs (h : List RCOp) : ((live h).length : Int) ≤ incs h ∧ 0 ≤ incs h := by
+  induction h with
+  | nil => simp [live, incs]
+  | cons op h ih =>
+    cases op <;> simp only [live, incs, List.length_cons, List.length_nil] <;> omega
+
+/-- the window never reports more than happened: for EVERY history (any timestamps, any order, Resets and JSON
+    round-trips anywhere) 0 ≤ rolling sum ≤ TotalSum (spec level; by `refines` also what the ring-buffer model answers) -/
+theorem sum_le_total (n : Nat) (w : Int) (h : List RCOp) : 0 ≤ sum n w h ∧ sum n w h ≤ incs h := by
+  have h1 := live_length_le_incs h
+  have h2 : ((counted w h).filter (fun e => e + n > hi w h)).length ≤ (counted w h).length := List.length_filter_le _ _
+  have h3 : (counted w h).length ≤ (live h).length := by
+    unfold counted
+    rw [List.length_map]
+    exact List.length_filter_le _ _
+  unfold sum
+  omega
 end CM.Props.C13
